@@ -5,7 +5,10 @@ import (
 	"encoding/hex"
 	"fmt"
 	"hash"
+	"runtime"
 	"sort"
+	"strconv"
+	"strings"
 	"sync"
 	"sync/atomic"
 	"testing/synctest"
@@ -52,6 +55,10 @@ type Kernel struct {
 	parked  []*Parked
 	running int
 	seq     int
+	// M1: goroutine ids of the tasks, and how many of them are blocked on a lock of the code
+	// under test (they are neither running nor parked: only an unlock can wake them)
+	gids    map[int64]bool
+	blocked int
 
 	logH      hash.Hash
 	schedH    hash.Hash
@@ -105,14 +112,65 @@ func (k *Kernel) Go(fn func()) {
 	k.running++
 	k.mu.Unlock()
 	go func() {
+		id := goid()
+		k.mu.Lock()
+		if k.gids == nil {
+			k.gids = map[int64]bool{}
+		}
+		k.gids[id] = true
+		k.mu.Unlock()
 		defer func() {
 			k.mu.Lock()
+			delete(k.gids, id)
 			k.running--
 			k.cond.Broadcast()
 			k.mu.Unlock()
 		}()
 		fn()
 	}()
+}
+
+func goid() int64 {
+	var buf [64]byte
+	f := strings.Fields(string(buf[:runtime.Stack(buf[:], false)]))
+	if len(f) < 2 {
+		return -1
+	}
+	n, _ := strconv.ParseInt(f[1], 10, 64)
+	return n
+}
+
+// BlockBegin is called (through the lock shim) by a goroutine that is about to wait for a
+// lock of the code under test. A task is then no longer running; it says whether the caller
+// is a task.
+func (k *Kernel) BlockBegin() bool {
+	id := goid()
+	k.mu.Lock()
+	defer k.mu.Unlock()
+	if !k.gids[id] {
+		return false
+	}
+	k.running--
+	k.blocked++
+	k.cond.Broadcast()
+	return true
+}
+
+// BlockResume is called by the unlocking goroutine right before it wakes a task that was
+// blocked: the task counts as running again before the unlocker can park.
+func (k *Kernel) BlockResume() {
+	k.mu.Lock()
+	k.running++
+	k.blocked--
+	k.mu.Unlock()
+}
+
+// Blocked is the number of tasks waiting for a lock. With nothing running and nothing
+// parked they wait forever: a deadlock in the code under test.
+func (k *Kernel) Blocked() int {
+	k.mu.Lock()
+	defer k.mu.Unlock()
+	return k.blocked
 }
 
 // Park blocks the calling goroutine at a seam until the scheduler releases it.
